@@ -273,6 +273,42 @@ fn graphs3_quick() -> Vec<Graph> {
     out
 }
 
+/// three types, every type an object that refers to one or to both of the *other* two (in either
+/// member order), possibly next to an undeclared string: the graphs in which a type is reached
+/// along two different paths while a third is still open
+fn graphs3_two_refs(thorough: bool) -> Vec<Graph> {
+    let mut per_type: Vec<Vec<TypeDef>> = vec![];
+    for i in 0..3usize {
+        let others: Vec<usize> = (0..3).filter(|j| *j != i).collect();
+        let r = |j: usize| Member::Ref(Wrap::Plain, j);
+        let mut tds = vec![];
+        for (a, b) in [(others[0], others[1]), (others[1], others[0])] {
+            tds.push(TypeDef::Object(vec![r(a)]));
+            tds.push(TypeDef::Object(vec![r(a), r(b)]));
+            tds.push(TypeDef::Object(vec![r(a), Member::Str]));
+            tds.push(TypeDef::Object(vec![Member::Str, r(a)]));
+            if thorough {
+                tds.push(TypeDef::Object(vec![r(a), r(b), Member::Str]));
+                tds.push(TypeDef::Object(vec![Member::Str, r(a), r(b)]));
+                tds.push(TypeDef::Object(vec![r(a), Member::DeclSafe]));
+                tds.push(TypeDef::Union(vec![r(a), r(b)]));
+                tds.push(TypeDef::Object(vec![Member::Ref(Wrap::List, a), Member::Ref(Wrap::MapEnum, b)]));
+                tds.push(TypeDef::Object(vec![r(a), r(i)]));
+            }
+        }
+        per_type.push(tds);
+    }
+    let mut out = vec![];
+    for a in &per_type[0] {
+        for b in &per_type[1] {
+            for c in &per_type[2] {
+                out.push(vec![a.clone(), b.clone(), c.clone()]);
+            }
+        }
+    }
+    out
+}
+
 pub fn graph_text(g: &Graph) -> String {
     g.iter()
         .enumerate()
@@ -545,8 +581,30 @@ fn argument_declarations(r: &mut Report) {
         json!({"type": "alias", "alias": {"typeName": {"name": "DnlAlias", "package": "com.verif"}, "alias": prim("STRING"), "safety": "DO_NOT_LOG"}}),
         json!({"type": "object", "object": {"typeName": {"name": "SafeObj", "package": "com.verif"}, "fields": [{"fieldName": "e", "type": tref("E")}, {"fieldName": "s", "type": prim("STRING"), "safety": "SAFE"}]}}),
         json!({"type": "object", "object": {"typeName": {"name": "UnsafeObj", "package": "com.verif"}, "fields": [{"fieldName": "e", "type": tref("E")}, {"fieldName": "s", "type": prim("STRING")}]}}),
+        // aliases whose declaration differs from what their target alone would give, and aliases of them
+        json!({"type": "alias", "alias": {"typeName": {"name": "DnlEnumAlias", "package": "com.verif"}, "alias": tref("E"), "safety": "DO_NOT_LOG"}}),
+        json!({"type": "alias", "alias": {"typeName": {"name": "UnsafeEnumAlias", "package": "com.verif"}, "alias": tref("E"), "safety": "UNSAFE"}}),
+        json!({"type": "alias", "alias": {"typeName": {"name": "SafeAliasAlias", "package": "com.verif"}, "alias": tref("SafeAlias")}}),
+        json!({"type": "alias", "alias": {"typeName": {"name": "DnlEnumAliasAlias", "package": "com.verif"}, "alias": tref("DnlEnumAlias")}}),
+        json!({"type": "alias", "alias": {"typeName": {"name": "EnumAlias", "package": "com.verif"}, "alias": tref("E")}}),
     ];
+    let map = |k: Value, v: Value| json!({"type": "map", "map": {"keyType": k, "valueType": v}});
     let arg_types: Vec<(&str, Value, bool)> = vec![
+        // the same declared aliases in *key* position (and as set / list items)
+        ("mapSafeAliasKeyEnum", map(tref("SafeAlias"), tref("E")), true),
+        ("mapSafeAliasAliasKeyEnum", map(tref("SafeAliasAlias"), tref("E")), true),
+        ("mapDnlEnumAliasKeyEnum", map(tref("DnlEnumAlias"), tref("E")), false),
+        ("mapUnsafeEnumAliasKeyEnum", map(tref("UnsafeEnumAlias"), tref("E")), false),
+        ("mapDnlEnumAliasAliasKeyEnum", map(tref("DnlEnumAliasAlias"), tref("E")), false),
+        ("mapEnumAliasKeySafe", map(tref("EnumAlias"), tref("SafeAlias")), true),
+        ("mapEnumKeyDnlEnumAlias", map(tref("E"), tref("DnlEnumAlias")), false),
+        ("setDnlEnumAlias", json!({"type": "set", "set": {"itemType": tref("DnlEnumAlias")}}), false),
+        ("setSafeAlias", json!({"type": "set", "set": {"itemType": tref("SafeAlias")}}), true),
+        ("optMapSafeAliasKeyEnum", json!({"type": "optional", "optional": {"itemType": map(tref("SafeAlias"), tref("E"))}}), true),
+        ("dnlEnumAlias", tref("DnlEnumAlias"), false),
+        ("unsafeEnumAlias", tref("UnsafeEnumAlias"), false),
+        ("safeAliasAlias", tref("SafeAliasAlias"), true),
+        ("dnlEnumAliasAlias", tref("DnlEnumAliasAlias"), false),
         ("enum", tref("E"), true),
         ("string", prim("STRING"), false),
         ("strAlias", tref("StrAlias"), false),
@@ -817,6 +875,7 @@ pub fn run(args: &Args) -> Report {
     } else {
         all.extend(graphs3_quick());
     }
+    all.extend(graphs3_two_refs(thorough));
     let n3 = all.len() - n2;
     if let Some(path) = &args.replay {
         let v = vcommon::load_replay(path);
@@ -839,6 +898,7 @@ pub fn run(args: &Args) -> Report {
             let mut extra = vec![];
             if !all.iter().any(|g| graph_text(g) == want) {
                 extra = graphs(2, true, true);
+                extra.extend(graphs3_two_refs(true));
             }
             let found: Vec<(usize, &Graph)> = all.iter().chain(extra.iter()).enumerate().filter(|(_, g)| graph_text(g) == want).take(1).collect();
             run_batch(0, &found, &mut report);
